@@ -114,6 +114,9 @@ type voterM struct {
 	stake map[string]int64 // denom -> restaked amount
 	vote  []feedstypes.Signal
 	voted bool // a vote of this voter has been accepted at least once (vote + lock records exist)
+	// overhang: a restake parameter change (not a withdrawal) took the voter's power below the standing vote;
+	// the property bounds the vote when it is cast, so this lasts until the voter's next accepted vote
+	overhang bool
 }
 
 type op struct {
@@ -735,6 +738,7 @@ func (h *hist) applyVote(o *op, tr *abci.ExecTxResult) bool {
 	hadPrev := len(v.vote) > 0
 	v.vote = append([]feedstypes.Signal(nil), o.signals...)
 	v.voted = true
+	v.overhang = false
 	tot := h.totals()
 	last := map[string]string{}
 	for _, ev := range tr.Events {
@@ -905,7 +909,12 @@ func (h *hist) sweep(resp *abci.ResponseFinalizeBlock) bool {
 			return false
 		}
 		sum := bigSum(v.vote)
-		if sum.Cmp(P) > 0 {
+		if sum.Cmp(P) <= 0 {
+			v.overhang = false // power is back (re-listing, new delegation): the bound is in force again
+		}
+		if sum.Cmp(P) > 0 && v.overhang {
+			h.run.Count("standing-vote-above-power-after-delisting-observed", 1)
+		} else if sum.Cmp(P) > 0 {
 			h.violate("standing-vote-above-voter-power", fmt.Sprintf("%s: standing vote sums to %s, total power %s", v.acc.Name, sum, P))
 			return false
 		}
@@ -924,7 +933,7 @@ func (h *hist) sweep(resp *abci.ResponseFinalizeBlock) bool {
 				v.acc.Name, found, lock.Power, sigString(v.vote), sum))
 			return false
 		}
-		if lock.Power.BigInt().Cmp(chainP.BigInt()) > 0 {
+		if lock.Power.BigInt().Cmp(chainP.BigInt()) > 0 && !v.overhang {
 			h.violate("lock-above-total-power", fmt.Sprintf("%s: lock %s > total power %s", v.acc.Name, lock.Power, chainP))
 			return false
 		}
@@ -1210,6 +1219,32 @@ func runHistory(run *sim.Run, col *collector, caseID int) {
 			run.Count("histories-continued-after-a-rejected-huge-vote", 1)
 			continue
 		}
+		// restake parameter change mid-history: coins of a de-listed denom stay in the stake record but stop
+		// counting as power (and count again when the denom is re-listed)
+		if rng.Chance(1, 10) {
+			na := sim.Pick(rng, [][]string{{"uabc"}, {"uabc", "uxyz"}, {"uxyz", "uband"}, {"uabc", "uxyz", "uband"}, {"uband"}, {}})
+			if fmt.Sprint(na) != fmt.Sprint(h.allow) {
+				if _, err := w.Authority(&restaketypes.MsgUpdateParams{Authority: sim.GovAddr().String(), Params: restaketypes.Params{AllowedDenoms: na}}); err != nil {
+					col.unexpected("restake MsgUpdateParams with distinct denoms rejected: " + err.Error())
+					return
+				}
+				old := h.allow
+				h.allow = na
+				h.log("restake allowed denoms %v -> %v", old, na)
+				run.Count("allowed-denoms-changed-mid-history", 1)
+				for _, v := range h.voters {
+					for d, amt := range v.stake {
+						if amt > 0 && !h.isAllowed(d) {
+							run.Count("voter-holds-stake-in-delisted-denom", 1)
+							if v.power(h.allow).Cmp(bigSum(v.vote)) < 0 {
+								v.overhang = true
+								run.Count("standing-vote-above-power-after-delisting(legitimate)", 1)
+							}
+						}
+					}
+				}
+			}
+		}
 		n := 1
 		if rng.Chance(1, 2) {
 			n = rng.Range(2, 5)
@@ -1261,6 +1296,7 @@ func main() {
 		"threshold eligibility is power >= PowerStepThreshold (property text: 'reach'; README wording 'surpassing/exceeding' is looser)",
 		"tie order at the MaxCurrentFeeds cut and the order of the list are not asserted",
 		"restake allowed denoms contain no duplicates (duplicate denoms are C16's business)",
+		"a restake parameter change that de-lists a denom may leave a standing vote above the voter's power; the property bounds the vote when it is cast, so this state is accepted until the voter's power is back or the voter votes again (withdrawals stay locked meanwhile)",
 		"votes placed in genesis are not driven")
 	col := newCollector()
 	if run.ReplayCase != nil {
@@ -1281,7 +1317,8 @@ func main() {
 		"undelegate:ok", "unstake:ok", "delegate:ok", "stake:ok",
 		"current-feeds-updates-nonempty", "current-feeds:more-eligible-than-max (cut exercised)", "current-feeds:signal-with-power==threshold",
 		"current-feeds:signal-with-power==threshold-1", "current-feeds:interval-clamped-to-min", "current-feeds:interval-above-min",
-		"index-entries-compared", "signal-totals-compared", "locks-compared", "per-tx-total-power-events-compared"} {
+		"index-entries-compared", "signal-totals-compared", "locks-compared", "per-tx-total-power-events-compared",
+		"allowed-denoms-changed-mid-history", "voter-holds-stake-in-delisted-denom"} {
 		run.Require(c, 1)
 	}
 	run.Finish()
